@@ -694,6 +694,17 @@ func genHEFixed(p func(string, ...any)) {
 			p("he H(%s;{i64:1=a:-7};%s;%s) -16 %s - - T:-7:1 T:-7:1", rawP, rawU(l), typed, h32)
 		}
 	}
+	// Location / preimage content type that are not valid UTF-8 (plain Go strings from a URL or an
+	// HTTP header): the decoder refuses such text, so the producer must
+	for _, bad := range []string{"68747470733a2f2f782fff", "c3", "612f62c328"} {
+		p("he H(-;{};-;{}) -16 %s - %s T:-7:1 T:-7:1", h32, bad)
+		p("he H(-;{};-;{}) -16 %s s:%s - T:-7:1 T:-7:1", h32, bad)
+		p("he H(-;{i64:1=a:-7};-;{}) -16 %s s:%s %s T:-7:1 T:-7:1", h32, bad, bad)
+	}
+	// a caller-supplied raw unprotected bucket with a tag in a value: refused by the decoder of the envelope
+	for _, ru := range []string{"a16178c100", "a11864c11a6553f100", "a11864d8634101", "a11864d9d9f700", "a11864c24101"} {
+		p("he H(-;{};%s;{}) -16 %s - - T:-7:1 T:-7:1", ru, h32)
+	}
 	// caller-supplied raw protected bytes never reach the envelope: the typed map is what is signed
 	p("he H(%s;{i64:1=a:-7};-;{}) -16 %s - - T:-7:1 T:-7:1", rawPbig, h32)
 	p("he H(%s;{};-;{}) -16 %s - - T:-7:1 T:-7:1", rawPbig, h32)
